@@ -163,6 +163,41 @@ def model_over_dumps(ctx, dumps, fmt, label, timeout=1800):
     return out
 
 
+def model_over_texts(ctx, docs, dumps, impl, fmt, label, clause, case_of, limit=400, max_len=6000, timeout=1800):
+    """the model evaluated from the documents' own bytes through Model/JsonText.v (`fmt % <packed bytes>`), compared with the
+    implementation's results `impl`, for documents without floating-point literals and without duplicate member names (serde's
+    derived struct readers refuse a duplicate field, serde_json::Value resolves it: that layer is compared at value level)"""
+    import json as _json
+    import re as _re
+    from coqrun import pb
+
+    def no_dups(text):
+        try:
+            bad = []
+
+            def hook(pairs):
+                ks = [k for k, _ in pairs]
+                if len(set(ks)) != len(ks):
+                    bad.append(1)
+                return dict(pairs)
+            _json.loads(text, object_pairs_hook=hook)
+            return not bad
+        except Exception:
+            return True
+    sel = []
+    for i, (d, du) in enumerate(zip(docs, dumps)):
+        raw = d.encode("utf8") if isinstance(d, str) else d
+        if du.tag == "ok" and du.fields and len(raw) <= max_len and not _re.search(r"(?:^|[(,:])d[0-9a-f]{16}", du.fields[0].decode()) \
+                and no_dups(raw.decode("utf8", "replace")):
+            sel.append(i)
+    if len(sel) > limit:
+        sel = ctx.rng.sample(sel, limit)
+    res = ctx.model([fmt % pb(docs[i].encode("utf8") if isinstance(docs[i], str) else docs[i]) for i in sel], label=label, timeout=timeout)
+    for i, m in zip(sel, res):
+        ctx.count("from-text(model)")
+        lib_vs_model(ctx, clause, case_of(i), impl[i], m)
+
+
 def escape_json_strings(text, rng, p=0.35):
     """the same JSON document with some characters INSIDE string literals (keys and values) written as \\uXXXX escapes:
     serde_json must hand the same strings to the program"""
